@@ -899,6 +899,15 @@ func guardedCrash(path string, f func() (int, int, map[string]int, error)) (int,
 	}
 	done := make(chan res, 1)
 	go func() {
+		// a panic of an API call on the script's own goroutine (e.g. Open of a cleanly closed
+		// store) ends the script with a "fail" event, like a Fatalf
+		defer func() {
+			if p := recover(); p != nil {
+				msg := fmt.Sprintf("panic in an API call: %v", p)
+				crashFatal.CompareAndSwap(nil, &msg)
+				done <- res{0, 0, map[string]int{}, errors.New(msg)}
+			}
+		}()
 		ne, np, ks, err := f()
 		done <- res{ne, np, ks, err}
 	}()
